@@ -1481,14 +1481,14 @@ class UserSessionManager(Service, discriminator="user-session-manager"):
         """End a user session by username or user object."""
         if isinstance(user, str):
             user = self._user_manager.users[user]  # grab user object from username
-        for sess_id, session in self.remote_sessions.items():
+        # end every session of the user, remote and local
+        ended = False
+        for sess_id, session in list(self.remote_sessions.items()):
             if session.user is user:
-                self._logout(local=False, remote_session_id=sess_id)
-                return True
+                ended = self._logout(local=False, remote_session_id=sess_id) or ended
         if self.local_user_logged_in and self.local_session.user is user:
-            self.local_logout()
-            return True
-        return False
+            ended = self.local_logout() or ended
+        return ended
 
     @property
     def local_user_logged_in(self) -> bool:
